@@ -226,6 +226,9 @@ def check_c01(tier, pid="C01"):
     n = {"C01": 60, "C02": 40, "C09": 60}.get(pid, 40) * (1 if tier == "quick" else 40)
     kind = "reconv" if pid == "C09" else "plain"
     insts = gen_instances(sc.rng, n, kind)
+    if pid in ("C01", "C02"):
+        # the directed family exposes a defect of maybe_update_best on about one instance in six: enough of them for a reliable verdict
+        insts += [gen_relaxed_improves(sc.rng.fork()) for _ in range(40 if tier == "quick" else 400)]
     blocks = []
     for I in insts:
         cfgs = CONFIGS_ALL
@@ -524,6 +527,7 @@ def check_c14(tier):
     if not sc.build(): return sc.chk.finish()
     n = 40 * (1 if tier == "quick" else 40)
     insts = gen_instances(sc.rng, n, "plain")
+    insts += [gen_relaxed_improves(sc.rng.fork()) for _ in range(30 if tier == "quick" else 300)]
     enums = oracle_batch([(I.line(), ["O opt", "O enum 0 %d 1 %d" % (I.initval, I.init)]) for I in insts])
     blocks = []; metas = []
     cfgs = [(0, 0, 0, 1, 0), (1, 0, 1, 2, 0), (0, 1, 1, 1, 0), (2, 0, 0, 1, 0), (1, 1, 0, 3, 0)]
